@@ -32,12 +32,16 @@ build_rule(name="b", cmd={"opt": "o", "dbg": "d", "cover": "c"}, outs=["b.out"],
 build_rule(name="c", cmd="y", srcs=["c.txt"], outs=["c.out"], deps=["//p:b"], env={"Z": "1", "Y": "2"}, data={"d2": ["x.txt"], "d1": ["y.txt"]}, test=True, test_cmd={"opt": "t", "dbg": "u"}, visibility=["PUBLIC"])
 `,
 	"q/c.txt": "c", "q/x.txt": "x", "q/y.txt": "y",
+	// two packages sharing a subincluded build_defs file that touches CONFIG; one of them sets package() defaults afterwards
+	"plz-out/gen/defs/d.build_defs": "CONFIG.setdefault(\"C07_X\", \"1\")\ndef mk(name):\n    return build_rule(name=name, cmd=\"m\", outs=[name + \".out\"])\n",
+	"s/BUILD":                       "subinclude(\"//defs:d\")\npackage(default_visibility=[\"PUBLIC\"], default_licences=[\"MIT\"])\nmk(\"s1\")\n",
+	"u/BUILD":                       "subinclude(\"//defs:d\")\nmk(\"u1\")\nbuild_rule(name=\"u2\", cmd=CONFIG.C07_X, outs=[\"u2.out\"])\n",
 	"r/BUILD": `
 build_rule(name="d", cmd="z", outs={"n2": ["d2.out"], "n1": ["d1.out"]}, optional_outs=["*.opt", "*.abc"], output_dirs=["od2", "od1"], visibility=["PUBLIC"], provides={"b": "//q:c", "a": "//p:b"})
 `,
 }
 
-var pkgs = []string{"p", "q", "r"}
+var pkgs = []string{"p", "q", "r", "s", "u"}
 
 type witness struct {
 	Choices []int `json:"choices"`
@@ -57,17 +61,32 @@ func main() {
 	core.RepoRoot = root
 
 	var vector string
+	allOrders, mapChoices := true, true
 	body := func() {
-		vsched.EnableMapChoices()
+		if mapChoices {
+			vsched.EnableMapChoices()
+		}
 		config := core.DefaultConfiguration()
 		config.Parse.BuildFileName = []string{"BUILD"}
 		config.Display.SystemStats = false
 		state := core.NewBuildState(config)
+		// the subincluded target //defs:d is already built (its output is on disk)
+		dp := core.NewPackage("defs")
+		dt := core.NewBuildTarget(core.NewBuildLabel("defs", "d"))
+		dt.AddOutput("d.build_defs")
+		dt.Visibility = core.WholeGraph
+		dt.SetState(core.Built)
+		dp.AddTarget(dt)
+		state.Graph.AddTarget(dt)
+		state.Graph.AddPackage(dp)
 		parse.InitParser(state)
 		build.Init(state)
 		// parse order: one free choice among the k! orders
 		order := append([]string{}, pkgs...)
-		perm := vsched.ChooseFree(6, "parse-order")
+		perm := 0
+		if allOrders {
+			perm = vsched.ChooseFree(120, "parse-order")
+		}
 		for i := 0; i < len(order); i++ {
 			f := 1
 			for j := 2; j < len(order)-i; j++ {
@@ -87,7 +106,7 @@ func main() {
 		}
 		var sb strings.Builder
 		for _, t := range state.Graph.AllTargets() {
-			if t.Label.PackageName == "_please" {
+			if t.Label.PackageName == "_please" || t.Label.PackageName == "defs" {
 				continue
 			}
 			rh := build.RuleHash(state, t, false, false)
@@ -116,63 +135,78 @@ func main() {
 	reference := ""
 	vectors := map[string]bool{}
 	mapPoints := 0
-	st := vsched.ExploreOpt(body, vsched.Options{Bound: bound, NoSchedChoices: true}, false, [][]int{nil}, func(res *vsched.Result) bool {
-		if res.Status != "ok" {
-			r.Violate("status:"+res.Status, witness{res.Choices}, res.Detail)
-			return false
-		}
-		n := 0
-		for _, p := range res.Points {
-			if p.Kind == "maporder" {
-				n++
+	explore := func() vsched.Stats {
+		return vsched.ExploreOpt(body, vsched.Options{Bound: bound, NoSchedChoices: true}, false, [][]int{nil}, func(res *vsched.Result) bool {
+			if res.Status != "ok" {
+				r.Violate("status:"+res.Status, witness{res.Choices}, res.Detail)
+				return false
 			}
-		}
-		if n > mapPoints {
-			mapPoints = n
-		}
-		if reference == "" {
-			reference = vector
-		}
-		vectors[vector] = true
-		if vector != reference {
-			// which line differs
-			a, b := strings.Split(reference, "\n"), strings.Split(vector, "\n")
-			diff := ""
-			for i := range a {
-				if i < len(b) && a[i] != b[i] {
-					diff = "reference: " + a[i] + "\nthis run:  " + b[i]
-					break
+			n := 0
+			for _, p := range res.Points {
+				if p.Kind == "maporder" {
+					n++
 				}
 			}
-			field := "other"
-			for _, f := range []string{"rule=", "runtime=", "post=", "src=", "deps=", "outs=", "srcs="} {
-				ra, rb := "", ""
-				if i := strings.Index(diff, "reference"); i >= 0 {
-					la := strings.SplitN(diff, "\n", 2)
-					ra, rb = la[0], la[1]
-				}
-				fa, fb := fieldOf(ra, f), fieldOf(rb, f)
-				if fa != fb {
-					field = strings.TrimSuffix(f, "=")
-					break
-				}
+			if n > mapPoints {
+				mapPoints = n
 			}
-			r.Violate("hash-depends-on-order:"+field, witness{res.Choices}, diff)
-			return r.NumViolations() < 4
-		}
-		return !r.OutOfTime()
-	}, r.OutOfTime)
+			if reference == "" {
+				reference = vector
+			}
+			vectors[vector] = true
+			if vector != reference {
+				// which line differs
+				a, b := strings.Split(reference, "\n"), strings.Split(vector, "\n")
+				diff := ""
+				for i := range a {
+					if i < len(b) && a[i] != b[i] {
+						diff = "reference: " + a[i] + "\nthis run:  " + b[i]
+						break
+					}
+				}
+				field := "other"
+				for _, f := range []string{"rule=", "runtime=", "post=", "src=", "deps=", "outs=", "srcs="} {
+					ra, rb := "", ""
+					if i := strings.Index(diff, "reference"); i >= 0 {
+						la := strings.SplitN(diff, "\n", 2)
+						ra, rb = la[0], la[1]
+					}
+					fa, fb := fieldOf(ra, f), fieldOf(rb, f)
+					if fa != fb {
+						field = strings.TrimSuffix(f, "=")
+						break
+					}
+				}
+				r.Violate("hash-depends-on-order:"+field, witness{res.Choices}, diff)
+				return r.NumViolations() < 4
+			}
+			return !r.OutOfTime()
+		}, r.OutOfTime)
+	}
+	var st vsched.Stats
+	if r.Quick() {
+		// quick: every parse order with default map orders, then every single map-order deviation under the first parse order
+		allOrders, mapChoices = true, false
+		st = explore()
+		allOrders, mapChoices = false, true
+		st2 := explore()
+		st.Executions += st2.Executions
+		st.Transitions += st2.Transitions
+		st.Complete = st.Complete && st2.Complete
+	} else {
+		st = explore() // thorough: the full product of parse orders and (bounded) map-order deviations
+	}
 	if mapPoints == 0 {
 		lib.Fatal("no map-iteration choice point was reached: the MapRange rewrite is not in place")
 	}
 	r.Assume = []string{
-		"sources of nondeterminism owned: package parse order (all 3! orders) and the iteration order of every map ranged over in src/build/incrementality.go and src/core (rewritten to an explorer-controlled range: sorted by default, any other permutation costs one deviation); thread count only influences these two",
+		"sources of nondeterminism owned: package parse order (all 5! orders) and the iteration order of every map ranged over in src/build/incrementality.go and src/core (rewritten to an explorer-controlled range: sorted by default, any other permutation costs one deviation); thread count only influences these two",
 		"hash vector = rule hash, runtime rule hash, post-build rule hash and source hash of every target plus its declared deps, outputs and source paths",
 	}
 	r.Finish(lib.Coverage{
 		Evaluations:        st.Executions,
 		DistinctNontrivial: st.Executions,
-		Rule:               "every parse order x every single (quick) / pair of (thorough) non-default map iteration orders at every map-range point reached while parsing and hashing 3 packages whose targets use every map-typed attribute with >=2 keys; each execution is a distinct choice sequence",
+		Rule:               "every parse order (5! = 120) x every single (quick) / pair of (thorough) non-default map iteration orders at every map-range point reached while parsing and hashing 5 packages (two of them sharing a subincluded build_defs file that touches CONFIG) whose targets use every map-typed attribute with >=2 keys; each execution is a distinct choice sequence",
 		Samples:            []any{strings.Split(reference, "\n")[0]},
 		States:             st.Executions,
 		Transitions:        st.Transitions,
